@@ -121,6 +121,7 @@ func SyncSuffix(cfg Config, prefix []string, prefixMaxView hotstuff.View, crashe
 		}
 	}
 	res.Detail = "suffix did not finish within 5000 events; " + lagging(members, baseline)
+	res.Trace = append([]string(nil), w.Trace[mark:min(len(w.Trace), mark+150)]...)
 	return res
 }
 
